@@ -123,7 +123,7 @@ func (c structCall) cfgSexp() string {
 		for t.Kind() == reflect.Ptr {
 			t = t.Elem()
 		}
-		typed = append(typed, N("t", X(t.String()), encodeRM(rm)))
+		typed = append(typed, N("t", X(typeKey(t)), encodeRM(rm)))
 	}
 	outer := map[string]string{}
 	if c.outer != nil {
